@@ -23,7 +23,7 @@
    cache is compared with the from-scratch hashes of its own node vector on the generated histories.
    Statements only. *)
 From Coq Require Import String NArith List.
-From MlsV Require Import Res TreeMathGen TreeMathProofs Tree TreeProofs TreeWF Decap DecapProofs TreeWF5 NodeVecGen NodeVecGenProofs Kem Priv ParentHash HashCache HashCacheGen HashCacheProofs HashCacheGenProofs HashCacheTree CommitStep TreeState ParentHashCode ParentHashGen ParentHashCodeProofs ParentHashGenProofs ParentHashCommit.
+From MlsV Require Import Res TreeMathGen TreeMathProofs Tree TreeProofs TreeWF Decap DecapProofs TreeWF5 NodeVecGen NodeVecGenProofs Kem Priv ParentHash HashCache HashCacheGen HashCacheProofs HashCacheGenProofs HashCacheTree CommitStep TreeState ParentHashCode ParentHashGen ParentHashCodeProofs ParentHashGenProofs ParentHashCommit TreeStateCode.
 Import ListNotations.
 Local Open Scope N_scope.
 
@@ -245,6 +245,51 @@ Print Assumptions C08_update_hashes_never_fails_in_a_commit.
 Example C08_a_state_after_a_commit_with_a_path_is_reachable :
   exists c, treachable ex_PHF ex_enc {| ts_tree := ex_t2; ts_deco := ex_d2; ts_cache := c |}.
 Proof. exact treachable_example. Qed.
+
+Theorem C08_update_path_keeps_the_number_of_leaf_slots : forall t1 sndr id t2,
+  small t1 -> apply_update_path t1 sndr id = TOk t2 ->
+  small t2 /\ total_leaf_count t2 = total_leaf_count (set t1 (2 * sndr) (Some (Leaf id))).
+Proof. exact update_path_keeps_the_leaf_count. Qed.
+Print Assumptions C08_update_path_keeps_the_number_of_leaf_slots.
+
+(* ---- everything composed: one commit with a path as the CODE performs it (batch_edit, update_hashes,
+   apply_update_path, update_parent_hashes = hashes, the walk, the leaf's own parent hash, hashes again), all of
+   it translated.  From a state that is well formed, parent-hash valid and cached right, none of the calls
+   fails and the new state is well formed, parent-hash valid and cached right - with the parent-hash function
+   := ParentHash::new over the cached sibling hash.  dm0 is the decoration after apply_update_path has installed
+   the new keys (fk on the unfiltered path nodes, leafkey at the leaf). *)
+Theorem C08_one_commit_as_the_code_performs_it_keeps_the_tree_state_invariant :
+  forall PH enc s removes updates adds t1 added dm c1 sndr id t2 flt dm0 fk leafkey,
+  TInv (fun k p ct => PH k p (c2h enc ct)) enc s -> tlen (ts_tree s) + 2 * N.of_nat (length adds) < 2 ^ 25 ->
+  batch_edit (ts_tree s) removes updates adds = TOk (t1, added) ->
+  (forall n, ~ touched (removes ++ map fst updates ++ added) n -> get (ts_tree s) n <> None -> dm n = ts_deco s n) ->
+  (forall n, (forall l, In l (map fst updates) -> n <> 2 * l) -> get (ts_tree s) n <> None -> dm n = ts_deco s n) ->
+  update_hashes (pay_of enc dm) (ts_cache s) t1 (removes ++ map fst updates ++ added) = Ok c1 ->
+  apply_update_path t1 sndr id = TOk t2 ->
+  filtered (set t1 (2 * sndr) (Some (Leaf id))) sndr = Ok flt ->
+  (forall x, x <> 2 * sndr -> (forall i, nth_error flt i = Some false -> x <> lvl_node (N.of_nat (S i)) sndr) -> dm0 x = dm x) ->
+  (forall i, nth_error flt i = Some false -> fst (dm0 (lvl_node (N.of_nat (S i)) sndr)) = fk (N.of_nat i)) ->
+  fst (dm0 (2 * sndr)) = leafkey ->
+  exists d2 c2, update_parent_hashes PH enc t2 c1 dm0 sndr = Ok (d2, c2) /\
+                TInv (fun k p ct => PH k p (c2h enc ct)) enc {| ts_tree := t2; ts_deco := d2; ts_cache := c2 |}.
+Proof. exact commit_with_the_code_parent_hashes. Qed.
+Print Assumptions C08_one_commit_as_the_code_performs_it_keeps_the_tree_state_invariant.
+
+Theorem C08_every_state_reachable_by_commits_as_the_code_performs_them_satisfies_the_invariant :
+  forall PH enc s, creachable PH enc s -> TInv (fun k p ct => PH k p (c2h enc ct)) enc s.
+Proof. exact tinv_creachable. Qed.
+Print Assumptions C08_every_state_reachable_by_commits_as_the_code_performs_them_satisfies_the_invariant.
+
+Example C08_the_code_walk_on_a_two_member_tree :
+  match initialize_hashes (pay_of ex_enc ex_dm) [] [Some (Leaf 1); None; Some (Leaf 7)] with
+  | Ok c1 => match update_parent_hashes ex_PH ex_enc ex_t2 c1 ex_dm0 0 with
+             | Ok (d2, c2) => snd (d2 0) = ex_PH 200 0 (HLeaf 1 (Some (7, ex_enc (77, 0)))) /\ snd (d2 1) = 0 /\
+                              hidx c2 1 = Ok (thash (pay_of ex_enc d2) ex_t2 [] 1 0)
+             | _ => False
+             end
+  | _ => False
+  end.
+Proof. exact code_walk_example. Qed.
 
 (* non-vacuity: a cache built from scratch for a three-member tree with an unmerged leaf, then kept right by
    update_hashes through a remove that shrinks nothing and an add that regrows *)
